@@ -10,4 +10,6 @@ cp -r /repo/docs/user/fundamentals $tmp/docs/user/
 for p in "$@"; do
   LENTIL_REPO=$tmp LSA_EVIDENCE_DIR=$tmp/_ev LSA_NO_LIVENESS=1 /venv/bin/python -m lsa $p --tier quick 2>&1 | grep -v "^  ok\|^ok " | tail -${TAILN:-25}
 done
+export PYTHONPATH=/verif
+if [ -n "$DUMP" ]; then LENTIL_REPO=$tmp /venv/bin/python $DUMP; fi
 if [ -n "$KEEP" ]; then echo "kept $tmp"; else rm -rf $tmp; fi
